@@ -1900,4 +1900,11 @@ theorem printN_clean (n : Nat) : CleanTok (printN n) := by
     have : d = 0 ∨ d = 1 ∨ d = 2 ∨ d = 3 ∨ d = 4 ∨ d = 5 ∨ d = 6 ∨ d = 7 ∨ d = 8 ∨ d = 9 := by omega
     rcases this with rfl | rfl | rfl | rfl | rfl | rfl | rfl | rfl | rfl | rfl <;> decide
 
+/-- objects written one after the other on the same stream are read back one after the other (the reason the policy
+    writer closes with a second `@`) -/
+theorem roundtrip_seq {α β} (rd1 : Rd α) (wr1 : α → Stream) (rd2 : Rd β) (wr2 : β → Stream) (x : α) (y : β)
+    (h1 : RoundTrips rd1 wr1 x) (h2 : RoundTrips rd2 wr2 y) (rest : Stream) :
+    Rd.bind rd1 (fun a => Rd.bind rd2 (fun b => Rd.pure (a, b))) (wr1 x ++ wr2 y ++ rest) = .ok (x, y) rest := by
+  simp [List.append_assoc, h1 (wr2 y ++ rest), h2 rest]
+
 end AITB.Codec
